@@ -145,7 +145,10 @@ def gen_specs(ctx, pid):
         if wild and pid in ('C03', 'C18') and i % 4 == 2:
             # a table without columns can be built through the API; it is still a table of the database
             spec['tables'].insert(rng.randrange(len(spec['tables']) + 1) if not spec['refs'] and not spec['groups'] else len(spec['tables']),
-                                  {'name': 'empty_%d' % (i % 7), 'schema': rng.choice(['public', 'hr']), 'alias': None, 'columns': [], 'indexes': [],
+                                  {'name': 'empty_%d' % (i % 7), 'schema': rng.choice(['public', 'hr']), 'alias': None, 'columns': [],
+                                   # ... and may still carry an index over an expression
+                                   'indexes': ([{'subjects': [{'expr': 'lower(x)'}], 'name': rng.choice([None, 'ix_empty']), 'unique': rng.random() < 0.5,
+                                                 'type': None, 'pk': False, 'note': '', 'comment': None}] if rng.random() < 0.5 else []),
                                    'note': '', 'header_color': None, 'comment': None, 'abstract': False, 'props': []})
         if wild and i % 5 == 2:
             # the empty schema is a schema like any other (only `public` is left out of qualified names): a namesake of a
@@ -222,8 +225,10 @@ def run_sql_check(ctx, pid, extra_parts=None):
             ctx.count('oracle:read-back')
             for what, detail, reason in r['oracle']:
                 if reason == 'HostsFirst' and model is not None and 'ok' in model[k] \
-                        and obs_order(model[k]['ok']) != obs_order(r['sql'][1]):
-                    reason = None   # not the recorded finding: the order is not the model's hosts-first order
+                        and (obs_order(model[k]['ok']) != obs_order(r['sql'][1]) or obs_fk(model[k]['ok']) != obs_fk(r['sql'][1])):
+                    # not the recorded finding: the order is not the model's hosts-first order, or the FOREIGN KEY clauses do not
+                    # sit in the CREATE TABLE statements where the model (and C04) put them
+                    reason = None
                 ctx.fail(what, {'op': 'sql', 'spec': spec, 'history': r.get('history')}, reason=reason, detail=detail, sql=r['sql'][1])
         else:
             ctx.count('oracle:not-readable(wild spec or error)')
@@ -259,6 +264,8 @@ def run_sql_check(ctx, pid, extra_parts=None):
                 if r['sql'][0] == 'ok' and 'ok' in m:
                     if obs_order(m['ok']) != obs_order(r['sql'][1]):
                         ctx.diverge('CREATE TABLE order of db.sql', {'op': 'sql', 'db': r['dump']}, obs_order(m['ok']), obs_order(r['sql'][1]))
+                    elif obs_fk(m['ok']) != obs_fk(r['sql'][1]):
+                        ctx.diverge('which CREATE TABLE holds which FOREIGN KEY clause', {'op': 'sql', 'db': r['dump']}, obs_fk(m['ok']), obs_fk(r['sql'][1]))
                 if r.get('order') is not None:
                     mo = model_order[k].get('ok')
                     if mo != r['order']:
